@@ -989,18 +989,17 @@ def run(ctx: core.Ctx):
     for _ in range(1400 if quick else 14000):
         d = rnd.choice([1, 2, 2, 3])
         scripts.append(g.observe(d, top=True) if rnd.random() < 0.8 else g.row(d))
-    items, metas, seen, unenc = [], [], set(), 0
+    items, metas, seen, unenc, unenc_why = [], [], set(), 0, []
     for s in scripts:
         try:
             text = s_coq(s)
             if text in seen:
                 continue
             o_sf, o_ps = _row_outcomes(s, libs)
-        except NotEncodable as ne:
+        except (NotEncodable, RecursionError, ValueError) as ne:
             unenc += 1
-            continue
-        except RecursionError:
-            unenc += 1
+            if len(unenc_why) < 5:
+                unenc_why.append(f"{type(ne).__name__}: {str(ne)[:120]}")
             continue
         seen.add(text)
         items.append(f"(mkS {text} {o_sf} {o_ps})")
@@ -1071,6 +1070,13 @@ def run(ctx: core.Ctx):
                 outs.append(outcome(helper_call(lib, a, e, order, rtol, atol), lib.Row, helper=True))
         except NotEncodable:
             unenc += 1
+            continue
+        except Exception as be:  # noqa: BLE001 - a constructor raised while building the inputs
+            ctx.deviation("C19/row-construction-raises-while-building-helper-input",
+                          f"building the rows of a helper case raised {type(be).__name__} under {lib.name}",
+                          {"kind": "assertDataFrameEqual", "variant": variant, "input_kind": kind, "actual": repr(a_spec),
+                           "expected": repr(e_spec), "schema_actual": repr(sch), "schema_expected": repr(sch2),
+                           "checkRowOrder": order, "rtol": rtol, "atol": atol, "raised": f"{lib.name}: {be!r}"})
             continue
         text = (f"(mkH {enc[0]} {enc[1]} {enc[2]} {enc[3]} {boollit(order)} {to_coq(rtol, type(None))} "
                 f"{to_coq(atol, type(None))} {outs[0]} {outs[1]})")
@@ -1177,7 +1183,7 @@ def run(ctx: core.Ctx):
                 ">= 3 nodes that constructs a Row | helper pair with non-empty sides that is not the 'equal' variant | "
                 "schema pair that differs",
         "scripts": len(items), "scripts_in_theorem_domain": n_dom, "helper_cases": len(h_items), "schema_cases": len(t_items),
-        "not_encodable_skipped": unenc,
+        "not_encodable_skipped": unenc, "not_encodable_examples": unenc_why,
         "histogram_script_operation": hist["script_op"], "histogram_script_size": hist["script_size"],
         "histogram_script_outcome_pyspark": hist["script_outcome_ps"], "histogram_helper_variant": hist["helper_variant"],
         "histogram_helper_verdict_pyspark": hist["helper_verdict_ps"], "histogram_helper_input_kind": hist["helper_input_kind"],
